@@ -364,6 +364,9 @@ func GenRequest(t *rapid.T, doc M, hostile bool) Req {
 	if chance(10, "cookiejunk") {
 		r.Header["Cookie"] = []string{rapid.SampledFrom([]string{"a=b; c", "=x", ";;;", "a", "sid=\"x", "sid=1; sid=2", "é=1"}).Draw(t, "cj")}
 	}
+	if pm, ok := doc["paths"].(M); ok && pm["/reserved"] != nil && chance(6, "oplesspath") {
+		path = "/reserved" // a declared path without operations, under whatever method was drawn
+	}
 	r.Path = path
 	r.Query = strings.Join(query, "&")
 	// servers: honour a relative base path sometimes
